@@ -275,9 +275,10 @@ def C02(run):
 def C05(run):
     q = run.quick()
     def plans(L):
-        return [["--noops", "dfs", "4" if q else "6"], ["--noops", "rand", "2500" if q else "30000"], ["--noops", "--dedup", "bytes", "2"]]
+        return [["--noops", "dfs", "4" if q else "6"], ["--noops", "rand", "2000" if q else "30000"], ["--noops", "--dedup", "bytes", "2"],
+                ["--noops", "--faults", "24", "rand", "250" if q else "4000"], ["--noops", "--faults", "12", "dfs", "3"]]
     mcs, tot, samples = _load_check(run, "C05", plans, what="cbor_load failure report", mc_cfgs=("MC_Decoder_L1", "MC_Decoder_L2", "MC_Decoder_L3"))
-    _load_evidence(run, mcs, tot, samples, DISTINCT_RULE + "inputs as C02 (every proper prefix of every enumerated item is in the token enumeration; truncations and corruptions from the random single-edit neighbours); result struct pre-filled with 0xAB", LOAD_ASSUME)
+    _load_evidence(run, mcs, tot, samples, DISTINCT_RULE + "inputs as C02 (every proper prefix of every enumerated item is in the token enumeration; truncations and corruptions from the random single-edit neighbours); result struct pre-filled with 0xAB; plus, for a subset, every single refused allocation request k = 0..min(N,24)-1 of the load (MEMERROR just past the head whose allocation was refused, nothing left allocated)", LOAD_ASSUME)
 
 
 def C19(run):
@@ -618,13 +619,13 @@ def C12(run):
     q = run.quick()
     cfgs = ["MC_Items_arr", "MC_Items_map", "MC_Items_chunk"]
     mcs, res, out, n, hist, ops, kinds = _items_check(run, "C12", cfgs,
-        [["hist", "500" if q else "12000", "60" if q else "150", "containers"], ["grow", "4000" if q else "60000", "0"]], "container history")
+        [["hist", "500" if q else "12000", "60" if q else "150", "containers"], ["grow", "40000" if q else "400000", "0"]], "container history")
     write_evidence(run, "model_checking", {
         "states": sum(m["distinct"] for m in mcs), "transitions": sum(m["generated"] for m in mcs),
         "traces_validated_against_impl": hist - len(res["rejects"]),
         "samples": _sample_lines(out, 1, lambda l: '"Set"' in l) + _sample_lines(out, 1, lambda l: '"grow"' in l and '"n":4' in l),
         "evaluations": ops, "distinct_nontrivial": kinds, "histories": hist,
-        "rule": "one case = one history of push, set, replace, get (indexes 0..size+2), map add and add chunk on definite (capacity 0..8) and indefinite arrays, maps and chunked strings, compared step by step with the abstract sequence by TLC; plus n insertions (n = 0..17, a random n, and %s) into each indefinite kind with capacity logged at every change and reallocations counted by the allocator; distinct = distinct sequence of (operation, success)" % ("4000" if q else "60000"),
+        "rule": "one case = one history of push, set, replace, get (indexes 0..size+2), map add and add chunk on definite (capacity 0..8) and indefinite arrays, maps and chunked strings, compared step by step with the abstract sequence by TLC; plus n insertions (n = 0..17, a random n, and %s) into each indefinite kind with capacity logged at every change and reallocations counted by the allocator; distinct = distinct sequence of (operation, success)" % ("40000" if q else "400000"),
         "trace_lines_validated_by_TLC": res["lines"], "exhaustive": False},
         ["MC_Items (arr, map, chunk families) checks SizeWithinCap, refusal at capacity, out-of-range refusal and logarithmic growth exhaustively on the small pool",
          "in conformance the capacity after a growth step is read from the real container: any growth that keeps size <= capacity, never shrinks and stays within the reallocation bound is accepted",
@@ -740,7 +741,7 @@ def C09(run):
     out = run.path("stream.ndjson")
     _record_simple(run, exe, ["150" if q else "3000", "600" if q else "3000"], out, "incremental client")
     if any('"livelock"' in l for l in open(out)):
-        report_violation(run, "stream-livelock", "the incremental client made 200000 calls without progress (a wait that does not exceed what is buffered)", {})
+        report_violation(run, "stream-livelock", "the incremental client kept calling the decoder without progress (a wait that does not exceed what is buffered)", {})
     n = count_lines(out)
     res = tracecheck(run, "Trace_Stream", out, boundary=b'{"e":"stream"')
     def sig(ln, r):
